@@ -6,6 +6,7 @@ Everything here is about data regenerated from /repo's sources on every run
 import LA.Proofs.TablesRT
 import LA.Model.TablesCat
 import LA.Proofs.StateFacts
+import LA.Gen.Norms
 
 namespace LA.C20
 open LA LA.MsgType LA.Tables
@@ -245,3 +246,11 @@ end LA.C20
 /-- The tables are fixed once `init` has run: packages auparse and aucoalesce write no package-level variable afterwards
 (the id caches of `ResolveIDs` aside) and package rule only inside its five table builders, which nothing but `init` mentions. -/
 theorem C20_tables_are_fixed_after_init : LA.StateFacts.ofPkg "auparse" = [] ∧ LA.StateFacts.ofPkg "aucoalesce" = LA.StateFacts.coalesceIdCaches ∧ LA.StateFacts.ofPkg "rule" = LA.StateFacts.ruleTableBuilders := by decide
+
+/-- The lists inside the normalisation table are full (`cap = len`, read off the running library's tables on every
+run): `CoalesceMessages` appends the syscall's ECS types to the record type's list, and with room to spare behind a
+list that append would write into the table itself, so that what a record type selects would depend on which events
+were coalesced before it. (The same fact is `C15_tables_full`; here it is what "the same on every call" rests on.) -/
+theorem C20_table_lists_have_no_spare_capacity :
+    ∀ n ∈ LA.Gen.Norms.norms, n.catCap = n.ecsCategory.length ∧ n.typCap = n.ecsType.length := by
+  decide +kernel
